@@ -168,68 +168,95 @@ def rule_globals(ctx, tu):
     ctx.floor(R, 7)
 
 
+def flow_summary(tu, f, concrete, memo, stack=()):
+    """(exposed reads, must writes) of member fields for f: a read is exposed if some path reaches it before the field
+    was written inside f (callees included, virtual calls resolved in `concrete`)"""
+    key = (f.qual, concrete)
+    if key in memo:
+        return memo[key]
+    if key in stack or f.body is None:
+        return (set(), set())
+    fields = set(tu.all_fields(concrete))
+    exposed = set()
+    exits = []
+
+    def effects(node):
+        reads, writes = set(), set()
+        targets = set()
+        for x in walk(node):
+            for s in cxa.stores_of_node(x):
+                if s.base and s.base[0] == "field":
+                    writes.add(s.base[1])
+                    if s.op == "=" and s.how == "assign" and cxfe.subscript(s.target) is None:
+                        targets.add(id(strip(s.target, casts=True)))
+        for x in walk(node):
+            if x.get("kind") == "MemberExpr" and cxfe.is_this_member(x) and x.get("name") in fields and \
+                    id(x) not in targets:
+                reads.add(x["name"])
+        return reads, writes
+
+    def on(node, facts):
+        have = {t[1] for t, p in facts if isinstance(t, tuple) and t[0] == "w"}
+        reads, writes = effects(node)
+        # a store like  v.resize(n) / v[i] = ..  reads nothing of v's old content that matters for definedness
+        for r in reads - have:
+            if r not in writes:
+                exposed.add(r)
+        for x in walk(node):
+            for callee in tu.resolve_calls(f, x, concrete=concrete):
+                ce, cw = flow_summary(tu, callee, concrete, memo, stack + (key,))
+                exposed.update(ce - have)
+
+    def gen(node):
+        out = []
+        reads, writes = effects(node)
+        for w in writes:
+            out.append((("w", w), True))
+        for x in walk(node):
+            for callee in tu.resolve_calls(f, x, concrete=concrete):
+                ce, cw = flow_summary(tu, callee, concrete, memo, stack + (key,))
+                for w in cw:
+                    out.append((("w", w), True))
+        return out
+
+    class C(cxa.GuardFacts):
+        def ret(self, s_, cfg):
+            exits.append(cfg)
+
+        def exit(self, cfg):
+            exits.append(cfg)
+    cl = C(on, on, gen)
+    ir.Engine(cl, "must").run(ir.cx_to_ir(f.body))
+    must = None
+    for c in exits:
+        w = {t[1] for t, p in c if isinstance(t, tuple) and t[0] == "w"}
+        must = w if must is None else must & w
+    memo[key] = (exposed, must or set())
+    return memo[key]
+
+
 def rule_init_all(ctx, tu, eff):
     R = "C08.INIT-ALL"
     entry = ["Iterate", "Sample", "GetProgress", "GetSampledStates", "NSamples", "NSpecies", "NMeshes", "GetState", "GetT",
              "GetSampledT"]
+    memo = {}
     for c in tu.classes.values():
         if not c.bases:
             continue
-        base = tu.base_chain(c.name)[-1]
-
-        def closure(starts):
-            seen, todo = set(), list(starts)
-            while todo:
-                f = todo.pop()
-                if f is None or f.qual in seen or f.body is None:
-                    continue
-                seen.add(f.qual)
-                for x in walk(f.body):
-                    for callee in tu.resolve_calls(f, x, concrete=c.name):
-                        todo.append(callee)
-            return seen
-        init_fns = closure([tu.lookup_method(c.name, "Init")])
-        run_fns = closure([tu.lookup_method(c.name, e) for e in entry])
-        written = set()
-        for q in init_fns:
-            written |= {w[2:] for w in eff.direct[q][1] if w.startswith("f:")}
-        read = set()
-        for q in run_fns:
-            read |= {r[2:] for r in eff.direct[q][0] if r.startswith("f:")}
-        fields = set(tu.all_fields(c.name))
-        missing = sorted((read & fields) - written)
-        for fld in sorted(read & fields):
-            if fld in written:
-                ctx.ok(R, c.node, c.name, "field %s" % fld, "written by Init-reachable code before any step reads it",
-                       nontrivial=False)
-        for fld in missing:
-            # acceptable if Iterate itself writes it before the first read (a0 <- ComputePropensities)
-            it = tu.lookup_method(c.name, "Iterate")
-            okk = False
-            first = []
-
-            def gen(node):
-                out = []
-                for x in walk(node):
-                    for callee in tu.resolve_calls(it, x, concrete=c.name):
-                        if "f:" + fld in eff.writes(callee.qual):
-                            out.append(("written:" + fld, True))
-                    for s in cxa.stores_of_node(x):
-                        if s.base == ("field", fld):
-                            out.append(("written:" + fld, True))
-                return out
-
-            def on_any(node, facts):
-                for x in walk(node):
-                    if x.get("kind") == "MemberExpr" and x.get("name") == fld and cxfe.is_this_member(x):
-                        first.append(("written:" + fld, True) in facts)
-            cxa.must_facts(it.body, on_atom=on_any, on_cond=on_any, gen=gen)
-            okk = bool(first) and all(first)
-            ctx.check(okk, R, c.field_nodes.get(fld, c.node), c.name, "field %s" % fld,
-                      "not set by Init, but every read in Iterate is dominated by a write in the same iteration",
-                      "read by the step functions but written neither by Init nor earlier in the iteration: its value "
-                      "comes from uninitialised memory or from nowhere")
-    ctx.floor(R, 6 * 20)
+        init = tu.lookup_method(c.name, "Init")
+        iexp, iw = flow_summary(tu, init, c.name, memo)
+        ctx.check(not iexp, R, init.node, c.name + " via " + init.qual, "Init reads no field before writing it",
+                  "%d fields definitely written" % len(iw),
+                  "Init reads %s before any store to it: the value comes from uninitialised memory"
+                  % sorted(iexp))
+        for e in entry:
+            m = tu.lookup_method(c.name, e)
+            ex, _ = flow_summary(tu, m, c.name, memo)
+            missing = sorted(ex - iw)
+            ctx.check(not missing, R, m.node, "%s (%s)" % (m.qual, c.name), "%s: %d fields read before written, all set by Init"
+                      % (e, len(ex)), "", "%s reads %s, which Init leaves unset: the result depends on uninitialised "
+                      "memory or a previous object" % (e, missing))
+    ctx.floor(R, 6 * 11)
 
 
 def rule_slice(ctx, tu):
